@@ -1,6 +1,10 @@
 use crate::report::{Ctx, Level, Partial, Tier};
 use serde_json::Value;
 
+pub mod c02;
+pub mod c04;
+pub mod c06;
+pub mod c16;
 pub mod c17;
 
 pub struct Prop {
@@ -30,7 +34,7 @@ pub fn need(p: &Partial, counter: &str, min: u64) -> Result<(), String> {
     if n < min { Err(format!("oracle branch '{counter}' taken {n} times (< {min})")) } else { Ok(()) }
 }
 
-pub static ALL: &[&Prop] = &[&c17::PROP];
+pub static ALL: &[&Prop] = &[&c02::PROP, &c04::PROP, &c06::PROP, &c16::PROP, &c17::PROP];
 
 pub fn lookup(id: &str) -> Option<&'static Prop> {
     ALL.iter().copied().find(|p| p.id == id)
